@@ -174,7 +174,12 @@ def r3_effects(ctx, fields, setters, pairing):
                "" if not missing else "move field %s is recorded by make_move but no longer read by %s: that effect of the move is not applied" % (fld, missing),
                ctx.where(prog.fns[BB + (missing[0] if missing else "make")]), sample={"field": fld, "read_by": [fn for fn in readers if fld in readers[fn]]})
     ok = len(set_in_gen) >= 16
-    ctx.ob(rid, "all-fields-recorded", ok, "" if ok else "make_move records only %d of the 16 fields: %s" % (len(set_in_gen), sorted(set_in_gen)), ctx.where(gen))
+    if len(set_in_gen) < 8:
+        # the move word is assembled without Move's setters (terms OR-ed together in one expression): what it
+        # records cannot be read off setter calls
+        ctx.lost(rid, "make_move records the move's fields through Move's setters (%d found)" % len(set_in_gen))
+    else:
+      ctx.ob(rid, "all-fields-recorded", ok, "" if ok else "make_move records only %d of the 16 fields: %s" % (len(set_in_gen), sorted(set_in_gen)), ctx.where(gen))
     # make: clock, e.p., move number, side
     mk = ctx.fn(rid, BB + "make")
     cfg, ex = Cfg(mk), Exprs(mk)
@@ -345,6 +350,9 @@ def r7_every_move_fully_recorded(ctx, rid="C02.R7"):
                 init = ex.initial(mv_local) if hasattr(ex, "initial") else None
                 if not (init and init[0] == "agg"):
                     continue
+            if len(setter_blocks) < 8 and k.endswith("::make_move"):
+                ctx.lost(rid, "%s builds the move word without Move's setters (%d called): which fields it records is not read off setter calls" % (k.rsplit("::", 1)[-1], len(setter_blocks)))
+                continue
             # a producer that always records PAWN as the moving piece emits pawn moves only: each of them resets the
             # half-move clock, captures or not (make_move's general condition is judged by R4)
             pawn_only = False
